@@ -104,6 +104,41 @@ func c15Arg(v ssa.Value) ssa.Value {
 	return v
 }
 
+// c15BindCall binds the parameters of h to the arguments of one call of it (seen through the bindings in force) and
+// returns the function that restores the bindings as they were.
+func c15BindCall(cc *ssa.CallCommon, h *ssa.Function) func() {
+	saved := map[*ssa.Parameter]ssa.Value{}
+	for i, fp := range h.Params {
+		if i < len(cc.Args) {
+			if old, had := c15Bind[fp]; had {
+				saved[fp] = old
+			}
+			c15Bind[fp] = c15Arg(cc.Args[i])
+		}
+	}
+	return func() {
+		for _, fp := range h.Params {
+			delete(c15Bind, fp)
+		}
+		for k, v := range saved {
+			c15Bind[k] = v
+		}
+	}
+}
+
+// c15SamePkgHelper: the function a call resolves to statically when it is a function with a body of the package of
+// `from` (a helper a refactoring may have extracted), else nil.
+func c15SamePkgHelper(c ssa.CallInstruction, from *ssa.Function) *ssa.Function {
+	if c.Common().IsInvoke() {
+		return nil
+	}
+	h := c.Common().StaticCallee()
+	if h == nil || len(h.Blocks) == 0 || core.FuncPkgPath(h) != core.FuncPkgPath(from) {
+		return nil
+	}
+	return h
+}
+
 // c15Helper evaluates a boolean helper of the same package for one situation: T, F, or "" when it is not determined.
 func c15Helper(call *ssa.Call, from *ssa.Function, sit string, decideCall func(c *ssa.Call, situation string) core.AB, depth int) core.AB {
 	h := call.Call.StaticCallee()
@@ -113,23 +148,7 @@ func c15Helper(call *ssa.Call, from *ssa.Function, sit string, decideCall func(c
 	if b, ok := h.Signature.Results().At(0).Type().Underlying().(*types.Basic); !ok || b.Kind() != types.Bool {
 		return core.Unk
 	}
-	saved := map[*ssa.Parameter]ssa.Value{}
-	for i, fp := range h.Params {
-		if i < len(call.Call.Args) {
-			if old, had := c15Bind[fp]; had {
-				saved[fp] = old
-			}
-			c15Bind[fp] = c15Arg(call.Call.Args[i])
-		}
-	}
-	defer func() {
-		for _, fp := range h.Params {
-			delete(c15Bind, fp)
-		}
-		for k, v := range saved {
-			c15Bind[k] = v
-		}
-	}()
+	defer c15BindCall(&call.Call, h)()
 	result := core.Unk
 	mixed := false
 	core.ExplorePaths(h, core.PathRules{
@@ -487,83 +506,159 @@ func c15R2(p *core.Program, r *core.Report, evalBool, evalCond, evalNode, evalCW
 		}
 	}
 	// ---- evaluateCondition: value vectors
+	// one way out of a function evaluated for a vector of per-value results: the abstract value of each result, how
+	// many values were evaluated on the way, and what the first result stands for when it is not a tracked boolean
+	type c15Out struct {
+		vals  string // the results, one of T F ? each
+		first string // T, F, ?, or panic
+		n     int
+	}
+	reachesCWV := func(g *ssa.Function) bool {
+		for _, ec := range core.EffectiveCalls(g, 2) {
+			if ec.Inner.Common().StaticCallee() == evalCWV {
+				return true
+			}
+		}
+		return false
+	}
 	run := func(opText string, emptyValue bool, vec []bool) string {
-		result := ""
-		core.ExplorePaths(evalCond, core.PathRules{
-			LoopBound: 4,
-			// the test of the operator may be kept in a local and used as a value later
-			OnInstr: func(s *core.PathState, in ssa.Instruction) { c15SeedConstEq(s, in, isOperatorValue, opText) },
-			OnBranch: func(s *core.PathState, cond ssa.Value) core.AB {
-				if d := decideConstEq(cond, isOperatorValue, opText); d != core.Unk {
-					return d
+		isOperator := func(v ssa.Value) bool { return isOperatorValue(c15Arg(v)) }
+		// explore evaluates fn with `base` values already evaluated by its callers; the per-value loop may sit in
+		// evaluateCondition or in a helper of the package it calls (any number of results): the helper is evaluated
+		// under the same rules and each way out of it is one outcome of the call
+		var explore func(fn *ssa.Function, base, depth int) []c15Out
+		explore = func(fn *ssa.Function, base, depth int) []c15Out {
+			var outs []c15Out
+			seenOut := map[c15Out]bool{}
+			count := func(s *core.PathState) int {
+				n := base
+				for _, e := range s.Effects {
+					if e.Kind == "VAL" {
+						n++
+					}
 				}
-				bo, ok := cond.(*ssa.BinOp)
-				if !ok {
+				return n
+			}
+			core.ExplorePaths(fn, core.PathRules{
+				LoopBound: 4,
+				OnInstr: func(s *core.PathState, in ssa.Instruction) {
+					// the test of the operator may be kept in a local and used as a value later
+					c15SeedConstEq(s, in, isOperator, opText)
+					// one result of a helper evaluated below
+					if ex, ok := in.(*ssa.Extract); ok {
+						for i := len(s.Effects) - 1; i >= 0; i-- {
+							if e := s.Effects[i]; e.Kind == "RET" && ssa.Value(e.Instr.(*ssa.Call)) == ex.Tuple {
+								if rv := e.Data.(string); ex.Index < len(rv) {
+									switch rv[ex.Index] {
+									case 'T':
+										s.Vals[ex] = core.True
+									case 'F':
+										s.Vals[ex] = core.False
+									}
+								}
+								break
+							}
+						}
+					}
+				},
+				OnBranch: func(s *core.PathState, cond ssa.Value) core.AB {
+					if d := decideConstEq(cond, isOperator, opText); d != core.Unk {
+						return d
+					}
+					bo, ok := cond.(*ssa.BinOp)
+					if !ok {
+						return core.Unk
+					}
+					// c.value == ""
+					if u, ok := c15Arg(bo.X).(*ssa.UnOp); ok && core.FieldAddrVar(u.X) != nil && core.FieldAddrVar(u.X).Name() == "value" {
+						if sv, ok := core.ConstString(bo.Y); ok && sv == "" {
+							return boolAB((bo.Op == token.EQL) == emptyValue)
+						}
+					}
+					// loop bound
+					if bo.Op == token.LSS {
+						return boolAB(count(s) < len(vec))
+					}
 					return core.Unk
-				}
-				// c.value == ""
-				if u, ok := bo.X.(*ssa.UnOp); ok && core.FieldAddrVar(u.X) != nil && core.FieldAddrVar(u.X).Name() == "value" {
-					if sv, ok := core.ConstString(bo.Y); ok && sv == "" {
-						return boolAB((bo.Op == token.EQL) == emptyValue)
-					}
-				}
-				// loop bound
-				if bo.Op == token.LSS {
-					n := 0
-					for _, e := range s.Effects {
-						if e.Kind == "VAL" {
-							n++
+				},
+				OnCall: func(s *core.PathState, c ssa.CallInstruction) []core.CallOutcome {
+					if c.Common().StaticCallee() == evalCWV {
+						if n := count(s); n < len(vec) {
+							return []core.CallOutcome{{Result: boolAB(vec[n]), Effects: []core.Effect{{Kind: "VAL"}}}}
 						}
+						return nil
 					}
-					return boolAB(n < len(vec))
-				}
-				return core.Unk
-			},
-			OnCall: func(s *core.PathState, c ssa.CallInstruction) []core.CallOutcome {
-				if c.Common().StaticCallee() == evalCWV {
-					n := 0
-					for _, e := range s.Effects {
-						if e.Kind == "VAL" {
-							n++
+					call, isCall := c.(*ssa.Call)
+					h := c15SamePkgHelper(c, evalCond)
+					if !isCall || h == nil || depth >= 2 || h == fn || !reachesCWV(h) {
+						return nil
+					}
+					restore := c15BindCall(&call.Call, h)
+					inner := explore(h, count(s), depth+1)
+					restore()
+					var cos []core.CallOutcome
+					for _, o := range inner {
+						co := core.CallOutcome{}
+						for k := count(s); k < o.n; k++ {
+							co.Effects = append(co.Effects, core.Effect{Kind: "VAL"})
 						}
+						if o.first == "panic" {
+							co.Effects = append(co.Effects, core.Effect{Kind: "PANIC"})
+						} else {
+							co.Effects = append(co.Effects, core.Effect{Kind: "RET", Instr: call, Data: o.vals})
+							if len(o.vals) == 1 {
+								co.Result = map[byte]core.AB{'T': core.True, 'F': core.False}[o.vals[0]]
+							}
+						}
+						cos = append(cos, co)
 					}
-					if n < len(vec) {
-						return []core.CallOutcome{{Result: boolAB(vec[n]), Effects: []core.Effect{{Kind: "VAL"}}}}
-					}
-				}
-				return nil
-			},
-			OnExit: func(s *core.PathState, ret *ssa.Return, pan *ssa.Panic) {
-				if ret == nil {
-					result = "panic"
-					return
-				}
-				v := s.Val(ret.Results[0])
-				vs := v.String()
-				if v == core.Unk {
-					// len(vals) == 0 / > 0 forms
-					if bo, ok := ret.Results[0].(*ssa.BinOp); ok {
-						if c, ok := bo.X.(*ssa.Call); ok {
-							if bi, ok := c.Call.Value.(*ssa.Builtin); ok && bi.Name() == "len" {
-								if k, isC := core.ConstInt(bo.Y); isC && k == 0 {
-									switch bo.Op {
-									case token.EQL:
-										vs = boolAB(len(vec) == 0).String()
-									case token.GTR, token.NEQ:
-										vs = boolAB(len(vec) > 0).String()
+					return cos
+				},
+				OnExit: func(s *core.PathState, ret *ssa.Return, pan *ssa.Panic) {
+					o := c15Out{n: count(s)}
+					if ret == nil || s.Has("PANIC") {
+						o.first = "panic"
+					} else {
+						for _, rv := range ret.Results {
+							o.vals += s.Val(rv).String()
+						}
+						if len(ret.Results) > 0 {
+							o.first = s.Val(ret.Results[0]).String()
+							if s.Val(ret.Results[0]) == core.Unk {
+								// len(vals) == 0 / > 0 forms
+								if bo, ok := ret.Results[0].(*ssa.BinOp); ok {
+									if c, ok := bo.X.(*ssa.Call); ok {
+										if bi, ok := c.Call.Value.(*ssa.Builtin); ok && bi.Name() == "len" {
+											if k, isC := core.ConstInt(bo.Y); isC && k == 0 {
+												switch bo.Op {
+												case token.EQL:
+													o.first = boolAB(len(vec) == 0).String()
+												case token.GTR, token.NEQ:
+													o.first = boolAB(len(vec) > 0).String()
+												}
+											}
+										}
 									}
 								}
 							}
 						}
 					}
-				}
-				if result != "" && result != vs {
-					result = "?"
-				} else {
-					result = vs
-				}
-			},
-		})
+					if !seenOut[o] {
+						seenOut[o] = true
+						outs = append(outs, o)
+					}
+				},
+			})
+			return outs
+		}
+		result := ""
+		for _, o := range explore(evalCond, 0, 0) {
+			if result != "" && result != o.first {
+				result = "?"
+			} else {
+				result = o.first
+			}
+		}
 		return result
 	}
 	vectors := [][]bool{{}, {false}, {true}, {false, false}, {false, true}, {true, false}, {true, true}}
@@ -1047,29 +1142,115 @@ func c15R3R4(p *core.Program, r *core.Report, evalCWV, numCmp, dateCmp, textCmp 
 			}
 			for _, opText := range opTexts {
 				admitted := false
+				viaArg := func(f func(ssa.Value) bool) func(ssa.Value) bool {
+					return func(v ssa.Value) bool { return f(c15Arg(v)) }
+				}
+				decide := func(s *core.PathState, cond ssa.Value) core.AB {
+					if d := decideConstEq(cond, viaArg(isOperatorValue), opText); d != core.Unk {
+						return d
+					}
+					if d := decideConstEq(cond, viaArg(isValueType), ft); d != core.Unk {
+						return d
+					}
+					if d := decideConstEq(cond, viaArg(fieldLoad("propKey")), propKey); d != core.Unk {
+						return d
+					}
+					if d := decideConstEq(cond, viaArg(fieldLoad("propType")), propType); d != core.Unk {
+						return d
+					}
+					if bo, ok := cond.(*ssa.BinOp); ok && (bo.Op == token.EQL || bo.Op == token.NEQ) {
+						x, y := bo.X, bo.Y
+						if core.IsNilConst(x) {
+							x, y = y, x
+						}
+						if core.IsNilConst(y) {
+							// evaluation requires a resolver: resolver == nil is false
+							if resolverP != nil && c15Arg(x) == ssa.Value(resolverP) {
+								return boolAB(bo.Op == token.NEQ)
+							}
+							// the error of a helper of the package evaluated below
+							if n := c15NilOf(s, x); n != core.Unk {
+								return boolAB((n == core.True) == (bo.Op == token.EQL))
+							}
+						}
+					}
+					return core.Unk
+				}
+				// a test kept as a value (a local, one operand of the || of a switch case) is decided where it is computed
+				seed := func(s *core.PathState, in ssa.Instruction) {
+					if bo, ok := in.(*ssa.BinOp); ok {
+						if d := decide(s, bo); d != core.Unk {
+							s.Vals[bo] = d
+						}
+					}
+				}
+				// a part of the validation may sit in a helper of the package that returns its error (last result): the
+				// helper is evaluated for the same cell, its parameters standing for the arguments, and the call has one
+				// outcome per nil-ness of the error the helper can return
+				type nilness struct{ canNil, canNon bool }
+				memo := map[ssa.CallInstruction]nilness{}
+				var onCall func(from *ssa.Function, depth int) func(s *core.PathState, c ssa.CallInstruction) []core.CallOutcome
+				var errorOf func(h *ssa.Function, depth int) nilness
+				errorOf = func(h *ssa.Function, depth int) nilness {
+					out := nilness{}
+					res := core.ExplorePaths(h, core.PathRules{
+						MaxPaths: 20000,
+						OnBranch: decide,
+						OnInstr:  seed,
+						OnCall:   onCall(h, depth),
+						OnExit: func(s *core.PathState, ret *ssa.Return, pan *ssa.Panic) {
+							if ret == nil || len(ret.Results) == 0 {
+								return
+							}
+							switch c15NilOf(s, ret.Results[len(ret.Results)-1]) {
+							case core.True:
+								out.canNil = true
+							case core.False:
+								out.canNon = true
+							default:
+								out.canNil, out.canNon = true, true
+							}
+						},
+					})
+					if res.Truncated {
+						return nilness{true, true}
+					}
+					return out
+				}
+				onCall = func(from *ssa.Function, depth int) func(s *core.PathState, c ssa.CallInstruction) []core.CallOutcome {
+					return func(s *core.PathState, c ssa.CallInstruction) []core.CallOutcome {
+						h := c15SamePkgHelper(c, validate)
+						if h == nil || depth >= 2 || h == from || h == validate {
+							return nil
+						}
+						rs := h.Signature.Results()
+						if rs.Len() == 0 || !types.Identical(rs.At(rs.Len()-1).Type(), types.Universe.Lookup("error").Type()) {
+							return nil
+						}
+						nn, done := memo[c]
+						if !done {
+							restore := c15BindCall(c.Common(), h)
+							nn = errorOf(h, depth+1)
+							restore()
+							memo[c] = nn
+						}
+						var cos []core.CallOutcome
+						if nn.canNil {
+							cos = append(cos, core.CallOutcome{Effects: []core.Effect{{Kind: "NIL", Instr: c, Data: true}}})
+						}
+						if nn.canNon {
+							cos = append(cos, core.CallOutcome{Effects: []core.Effect{{Kind: "NIL", Instr: c, Data: false}}})
+						}
+						return cos
+					}
+				}
 				res := core.ExplorePaths(validate, core.PathRules{
 					MaxPaths: 200000,
-					OnBranch: func(s *core.PathState, cond ssa.Value) core.AB {
-						if d := decideConstEq(cond, isOperatorValue, opText); d != core.Unk {
-							return d
-						}
-						if d := decideConstEq(cond, isValueType, ft); d != core.Unk {
-							return d
-						}
-						if d := decideConstEq(cond, fieldLoad("propKey"), propKey); d != core.Unk {
-							return d
-						}
-						if d := decideConstEq(cond, fieldLoad("propType"), propType); d != core.Unk {
-							return d
-						}
-						// evaluation requires a resolver: resolver == nil is false
-						if bo, ok := cond.(*ssa.BinOp); ok && resolverP != nil && bo.X == ssa.Value(resolverP) && core.IsNilConst(bo.Y) {
-							return boolAB(bo.Op == token.NEQ)
-						}
-						return core.Unk
-					},
+					OnBranch: decide,
+					OnInstr:  seed,
+					OnCall:   onCall(validate, 0),
 					OnExit: func(s *core.PathState, ret *ssa.Return, pan *ssa.Panic) {
-						if ret != nil && core.IsNilConst(ret.Results[0]) {
+						if ret != nil && c15NilOf(s, ret.Results[0]) == core.True {
 							admitted = true
 						}
 					},
@@ -1096,6 +1277,47 @@ func c15R3R4(p *core.Program, r *core.Report, evalCWV, numCmp, dateCmp, textCmp 
 		}
 	}
 	r.Require("validator_cells", nCells, 40)
+}
+
+// c15NilOf: whether an error (interface) value is nil on this path: True nil, False not nil, Unk not known. The error
+// of a call evaluated by the caller's OnCall is recorded as a NIL effect on the call (the last result of a tuple).
+func c15NilOf(s *core.PathState, v ssa.Value) core.AB {
+	for k := 0; k < 4; k++ {
+		phi, ok := v.(*ssa.Phi)
+		if !ok {
+			break
+		}
+		in := pathIncoming(s, phi)
+		if in == nil {
+			return core.Unk
+		}
+		v = in
+	}
+	if core.IsNilConst(v) {
+		return core.True
+	}
+	var call ssa.Value
+	switch x := v.(type) {
+	case *ssa.MakeInterface:
+		return core.False // a concrete value put into an interface makes a non-nil interface, whatever the value
+	case *ssa.Call:
+		call = x
+	case *ssa.Extract:
+		if c, ok := x.Tuple.(*ssa.Call); ok && x.Index == c.Call.Signature().Results().Len()-1 {
+			call = c
+		}
+	}
+	if call == nil {
+		return core.Unk
+	}
+	for i := len(s.Effects) - 1; i >= 0; i-- {
+		if e := s.Effects[i]; e.Kind == "NIL" && e.Instr != nil {
+			if ev, ok := e.Instr.(ssa.Value); ok && ev == call {
+				return boolAB(e.Data.(bool))
+			}
+		}
+	}
+	return core.Unk
 }
 
 // c15R6: lookups in the attribute type table happen under a property-type test.
@@ -1256,8 +1478,8 @@ func c15R5(p *core.Program, r *core.Report, evalNode *ssa.Function) {
 	for _, h := range hosts {
 		core.EachInstr(h, false, func(_ *ssa.Function, in ssa.Instruction) {
 			bo, ok := in.(*ssa.BinOp)
-			if !ok || bo.Op != token.EQL {
-				return
+			if !ok || (bo.Op != token.EQL && bo.Op != token.NEQ) {
+				return // `!=` with the branches swapped decides the same thing (the splice rule below checks the edge)
 			}
 			if isOp(bo.X) && isOp(bo.Y) && (isOpField(bo.X) || isOpField(bo.Y)) {
 				sameOp = true
@@ -1290,8 +1512,8 @@ func c15R5(p *core.Program, r *core.Report, evalNode *ssa.Function) {
 			tested := false
 			for _, ce := range core.ControllingConds(call.Block()) {
 				bo, ok := ce.Cond.(*ssa.BinOp)
-				if !ok || bo.Op != token.EQL || !ce.Taken {
-					continue
+				if !ok || (bo.Op != token.EQL && bo.Op != token.NEQ) || (bo.Op == token.EQL) != ce.Taken {
+					continue // the edge on which the two operators are equal
 				}
 				for _, o := range []ssa.Value{bo.X, bo.Y} {
 					if u, ok := o.(*ssa.UnOp); ok {
